@@ -12,9 +12,11 @@ HARNESS = dict(name="hashtable", flavour="asan")
 # (results, contents, counts, destructor multisets, visit-exactly-once) and alone decides what is a concrete violation
 P_DIFF_CONCRETE = False
 TIMEOUT = 900
-TRUSTED = ["hand model lean/AwsVerif/Model/HashTable.lean (tied to source/hash_table.c by this correspondence run only: "
+TRUSTED = ["hand model lean/AwsVerif/Model/Lookup3.lean (byte-wise hashlittle2; tied by the W stream `hl2` at all four alignments)",
+           "hand model lean/AwsVerif/Model/HashTable.lean (tied to source/hash_table.c by this correspondence run only: "
            "P lines = results/contents/destructor multisets, W lines = full slot dump through private/hash_table_impl.h)",
-           "props/c02_gen.py: s_tolower_table, FNV constants and the max_load_factor literal are regenerated from /repo on every run",
+           "props/c02_gen.py: s_tolower_table, FNV constants, the max_load_factor literal and the lookup3 rotation amounts / basis / "
+           "initial values are regenerated from /repo on every run (shape of mix/final/hashlittle2 checked against the modelled template)",
            "harness/hashtable.c (user hash = per-case table on key identity, equality on identity, in-harness invariant monitor)"]
 ASSUMPTIONS = ["the user's hash function is a function of what the user's equality compares (hash_fn consistent with equals_fn)",
                "iterators are not used across a structural change made through another route (API contract)",
@@ -23,11 +25,11 @@ RULE = ("op programs over 1-2 tables, 3-64 key identities x 2 pointers, adversar
         "at size-1, same home different high bits, random), initial sizes {0,1,2,3,8,64}, destructor sets {kv,k,v,-}; "
         "non-trivial = >=1 overwrite-or-remove and (>=1 growth or >=1 iterator/foreach deletion); distinct by op-file hash; "
         "plus exhaustive put/remove/iterate programs on a 4-slot table")
-NOT_PROVED = ["iteration through explicit iterators (begin / next / delete with destroy_contents, interleaved finds) and foreach passes "
-              "that stop early or fail: only invariant preservation is proved (c02_inv_iter_delete, c02_iter_any_callback); "
-              "exactly-once is proved for full foreach passes (c02_iter_once) and tested by the iterator oracle otherwise",
-              "content hashes other than the case-insensitive pair (lookup3-based aws_hash_string / c_string / byte_cursor_ptr / "
-              "aws_hash_ptr) and swap / move / eq have no theorem in C02 (checked by the correspondence run only)"]
+NOT_PROVED = ["that the 32-bit-load and 16-bit-load paths of hashlittle2 (chosen by the alignment of the key pointer) compute the "
+              "byte-wise function the model defines: checked by the W stream `hl2` at all four alignments (lengths 0..40, boundary "
+              "fills, random up to 300 bytes) and by the in-harness consistency monitor, not proved (design: tie, not proof)",
+              "aws_hash_ptr / aws_hash_combine are modelled and compared (W) but carry no theorem (there is no equality notion to be "
+              "consistent with beyond pointer identity)"]
 
 M64 = (1 << 64) - 1
 
@@ -136,7 +138,7 @@ def gen_case(rng, maxops):
         elif r < 0.93:
             ops.append(f"count {t}")
         elif r < 0.96 and two:
-            ops.append(rng.choice(["swap t0 t1", "eq t0 t1", "eq t1 t0", "swap t1 t0"]))
+            ops.append(rng.choice(["swap t0 t1", "eq t0 t1", "eq t1 t0", "swap t1 t0", "eqm t0 t1", "eqm t1 t0"]))
         elif r < 0.97:
             ops.append(rng.choice([f"cleanup {t}", f"cleanup {t}", "move t2 t0", "move t0 t2", f"init {t} {rng.choice([0, 2, 3])} {destr}",
                                    "eq t0 t0", "iter_next i1", "iter_delete i0 keep"]))
@@ -157,8 +159,10 @@ def gen_eq_case(rng):
     a = list(pairs); b = list(pairs)
     rng.shuffle(b)
     r = rng.random()
-    if r < 0.3 and b:
+    if r < 0.15 and b:
         k, v = b[0]; b[0] = (k, "v7")
+    elif r < 0.3 and b:
+        k, v = b[0]; b[0] = (k, rng.choice([f"v{int(v[1:]) + 8}", "vnull"]))
     elif r < 0.5 and b:
         b.pop()
     elif r < 0.6:
@@ -167,7 +171,7 @@ def gen_eq_case(rng):
         ops.append(f"put t0 {k}.p0 {v}")
     for k, v in b:
         ops.append(f"put t1 {k}.p1 {v}")
-    ops += ["eq t0 t1", "eq t1 t0", "swap t0 t1", "eq t0 t1"]
+    ops += ["eq t0 t1", "eq t1 t0", "eqm t0 t1", "eqm t1 t0", "swap t0 t1", "eq t0 t1", "eqm t0 t1"]
     return Case(ops, {"kind": "eq"})
 
 
@@ -186,6 +190,35 @@ def gen_hashic_case(rng):
         ops.append(f"hashic {a.hex() or '-'}")
         ops.append(f"eqic {a.hex() or '-'} {b.hex() or '-'}")
     return Case(ops, {"kind": "hashic"})
+
+
+def gen_lookup3_cases(rng, nrandom):
+    """content hashes: every length 0..40 (all alignments are driven by the harness), boundary fills, embedded NULs
+    (aws_hash_c_string stops there), random lengths; aws_hash_ptr / aws_hash_combine on boundary words"""
+    out = []
+    ops = []
+    for n in range(41):
+        ops.append("hl2 " + (bytes(rng.randrange(1, 256) for _ in range(n)).hex() or "-"))
+    for n in (1, 4, 11, 12, 13, 24, 25, 36, 37):
+        ops.append("hl2 " + ("ff" * n))
+        ops.append("hl2 " + ("00" * n))
+        ops.append("hl2 " + bytes((i * 37 + 1) % 256 for i in range(n)).hex())
+    out.append(Case(ops, {"kind": "lookup3"}))
+    ops = []
+    for _ in range(nrandom):
+        n = rng.choice([rng.randrange(0, 41), rng.randrange(0, 41), rng.randrange(41, 300)])
+        b = bytearray(rng.randrange(256) for _ in range(n))
+        if n and rng.random() < 0.3:
+            b[rng.randrange(n)] = 0
+        ops.append("hl2 " + (bytes(b).hex() or "-"))
+    words = [0, 1, 0xff, 0x100, 0xffffffff, 0x100000000, (1 << 63), M64, 0x7ffdeadbeef0]
+    for w in words:
+        ops.append(f"hptr {w:x}")
+    for _ in range(12):
+        ops.append(f"hptr {rng.getrandbits(64):x}")
+        ops.append(f"hcomb {rng.choice(words + [rng.getrandbits(64)]):x} {rng.choice(words + [rng.getrandbits(64)]):x}")
+    out.append(Case(ops, {"kind": "lookup3"}))
+    return out
 
 
 def tolower_sweep_case():
@@ -232,6 +265,7 @@ def gen_cases(rng, tier):
     cases = [gen_case(rng, 45) for _ in range(4000 if quick else 40000)]
     cases += [gen_eq_case(rng) for _ in range(60 if quick else 1500)]
     cases += [gen_hashic_case(rng) for _ in range(20 if quick else 500)] + [tolower_sweep_case()]
+    cases += gen_lookup3_cases(rng, 150 if quick else 5000)
     if quick:
         cases += exhaustive_cases(4)                       # 3 * 8^4 * 4 = 49 152 programs with iteration tails
         full = exhaustive_cases(5, with_iter=False)        # a random slice of the depth-5 space
@@ -309,8 +343,14 @@ def oracle(case, lines):
         o = tk[0]
         if o == "hash":
             continue
-        if o == "hashic":
+        if o in ("hashic", "hptr", "hcomb"):
             continue    # W only
+        if o == "hl2":
+            l = take()
+            if l != "P hl2 consistent=1":
+                errs.append(f"{op}: the same bytes hash differently depending on where they are stored "
+                            f"(alignment / string vs cursor vs C string): `{l}`")
+            continue
         if o == "eqic":
             a, b = (bytes.fromhex(x) if x != "-" else b"" for x in tk[1:3])
             low = lambda s: bytes(c + 32 if 65 <= c <= 90 else c for c in s)
@@ -347,13 +387,19 @@ def oracle(case, lines):
             stale(a); stale(b)
             expect("P " + o, op) and expect(_contents_line(a, tabs[a]), op) and expect(_contents_line(b, tabs[b]), op)
             continue
-        if o == "eq":
+        if o in ("eq", "eqm"):
             ta, tb = tabs.get(tk[1]), tabs.get(tk[2])
             if ta is None or tb is None:
                 expect("P nil", op)
             else:
-                same = {i: kv[1] for i, kv in ta.d.items()} == {i: kv[1] for i, kv in tb.d.items()}
-                expect(f"P eq {int(same)}", op)
+                def veq(x, y):      # s_safe_eq_check around the value_eq callback
+                    if x == y:
+                        return True
+                    if x == "vnull" or y == "vnull":
+                        return False
+                    return o == "eqm" and int(x[1:]) % 8 == int(y[1:]) % 8
+                same = set(ta.d) == set(tb.d) and all(veq(ta.d[i][1], tb.d[i][1]) for i in ta.d)
+                expect(f"P {o} {int(same)}", op)
             continue
         if o in ("iter_next", "iter_done", "iter_delete"):
             it = iters.get(tk[1])
@@ -568,25 +614,31 @@ MANIFEST = dict(
     category="proof",
     design_ref="5.2",
     text=("Lean 4 theorems about an executable transcription of source/hash_table.c, for ALL user hash functions, all op "
-          "sequences, all initial sizes and destructor sets: [proved] the structural invariant (power-of-two size, mask, "
+          "sequences, all initial sizes and destructor sets, all fully proved: the structural invariant (power-of-two size, mask, "
           "entry_count = occupied slots <= max_load < size, no duplicate keys, stored hash = hash of key) and the Robin Hood "
           "condition are established by init and preserved by put / create / find / remove (with and without out-parameter) / "
           "remove_element / clear / iterator delete / foreach with any callback; s_emplace_item, s_remove_entry (backward "
           "shift), s_expand_table individually preserve the Robin Hood condition and the multiset of entries; every fuel-bounded "
           "loop terminates inside its fuel; find is sound and complete (wrap-around included); every result (was_created, "
           "was_present, returned elements, entry count, destructor log) of every program equals the reference map's and the "
-          "contents stay a permutation of it (errors: only OVERFLOW from growth, table unchanged); "
-          "aws_array_eq_ignore_case a b -> equal aws_hash_array_ignore_case, over the s_tolower_table regenerated from "
-          "byte_buf.c (all 256 entries checked by decide); a full foreach pass with per-key deletion visits every entry "
-          "exactly once and leaves exactly the non-deleted ones (limit adjustment and slot step-back of aws_hash_iter_delete). "
-          "[not proved] exactly-once for explicit iterator programs and for passes that stop early - tested only. Tie to /repo: correspondence run of the compiled model "
-          "against hash_table.c rebuilt from the working tree (ASan/UBSan): results, sorted contents, destructor multisets (P), "
-          "full slot dump through private/hash_table_impl.h and iterator slot/limit (W), an in-harness monitor of the invariant "
-          "on the C slots, and a Python reference-dict oracle incl. visit-exactly-once for iterator programs; exhaustive "
-          "put/remove/iterate programs on a 4-slot table."),
-    note=("Trusted: Lean kernel; hand-written model Model/HashTable.lean (tied by correspondence only); generated constants "
-          "(tolower table, FNV constants, load-factor literal) by props/c02_gen.py; harness. Keys are modelled as (identity, "
-          "pointer) with the user hash a function of identity (hash/equality consistency is an API precondition). lookup3-based "
-          "content hashes and swap/move/eq (struct copies, checked by the correspondence run) have no theorem here."),
+          "contents stay a permutation of it (errors: only OVERFLOW from growth, table unchanged); explicit iterator programs "
+          "begin;(decide; delete(destroy?); next)* with arbitrary history-dependent decisions and foreach with any callback "
+          "(stop / error included): no element shown twice, every element shown exactly once if the pass runs to done, final "
+          "contents = initial minus deleted, destructors exactly as requested (limit adjustment and slot step-back of "
+          "aws_hash_iter_delete); aws_hash_table_eq as written decides equality of the two key->value maps under "
+          "s_safe_eq_check(value_eq); swap / move are state exchanges without destructor calls; "
+          "aws_array_eq_ignore_case a b -> equal aws_hash_array_ignore_case over the s_tolower_table regenerated from byte_buf.c "
+          "(all 256 entries by decide); the lookup3 content hashes (byte-wise hashlittle2 with constants generated from "
+          "lookup3.inl, reproducing lookup3's published self-test values) are functions of the bytes only. [not proved] that "
+          "hashlittle2's word-load paths agree with the byte-wise definition - W stream at all four alignments. Tie to /repo: "
+          "correspondence run of the compiled model against hash_table.c rebuilt from the working tree (ASan/UBSan): results, "
+          "sorted contents, destructor multisets (P), full slot dump through private/hash_table_impl.h and iterator slot/limit "
+          "(W), an in-harness monitor of the invariant on the C slots, a content-hash consistency monitor, and a Python "
+          "reference-dict oracle incl. visit-exactly-once for iterator programs; exhaustive put/remove/iterate programs on a "
+          "4-slot table."),
+    note=("Trusted: Lean kernel; hand-written models Model/HashTable.lean, Model/Lookup3.lean (tied by correspondence only); "
+          "generated constants (tolower table, FNV constants, load-factor literal, lookup3 rotation amounts / basis / initial "
+          "values) by props/c02_gen.py; harness. Keys are modelled as (identity, pointer) with the user hash a function of "
+          "identity (hash/equality consistency is an API precondition)."),
     technique="Lean 4 invariant + refinement proofs over an executable model of hash_table.c; model/implementation differential run with slot-level white-box stream, in-harness invariant monitor and a reference-map oracle",
 )
